@@ -168,3 +168,32 @@ Fixpoint run_loop (fuel : nat) (g : cfg) (first : bool) (prev t ri : Z) (st : li
 Definition run (g : cfg) : option (list (Z * list bool)) :=
   run_loop (Z.to_nat (duration g / hyd_step g + duration g / rule_step g + 1) +
             (length (controls g) + 1) * (Z.to_nat (duration g / 86400) + 2) + 8)%nat g true (-1) 0 0 (init_status g).
+
+(* ---- the run as an iteration of one solved step; pause / restart ----------------------------------------- *)
+(* simulation state between two solved steps: first?, previous solved time, next grid time, rule index, statuses *)
+Definition sstate := (bool * Z * Z * Z * list bool)%type.
+Definition st_time (s : sstate) : Z := match s with (_, _, t, _, _) => t end.
+Definition one_step (g : cfg) (s : sstate) : option ((Z * list bool) * sstate) :=
+  match s with
+  | (first, prev, t, ri, st) =>
+    match presolve (S (length (controls g)) + Z.to_nat (t / rule_step g) + 4) g first prev t ri st with
+    | None => None
+    | Some (t1, ri1, st1) => Some ((t1, st1), (false, t1, t1 + hyd_step g - ((t1 + hyd_step g) mod hyd_step g), ri1, st1))
+    end
+  end.
+(* run_sim: solve steps until the next grid time exceeds the duration D; returns the trace and the state left in the model *)
+Fixpoint steps (fuel : nat) (g : cfg) (D : Z) (s : sstate) : option (list (Z * list bool) * sstate) :=
+  match fuel with
+  | O => None
+  | S f =>
+    match one_step g s with
+    | None => None
+    | Some (e, s') =>
+      if D <? st_time s' then Some ([e], s')
+      else match steps f g D s' with Some (tr, sf) => Some (e :: tr, sf) | None => None end
+    end
+  end.
+Definition init_state (g : cfg) : sstate := (true, -1, 0, 0, init_status g).
+(* a new simulator object continuing a paused model: first_step = False, rule index recomputed from the last solved time *)
+Definition restart_state (g : cfg) (s : sstate) : sstate :=
+  match s with (_, prev, t, _, st) => (false, prev, t, prev / rule_step g + 1, st) end.
